@@ -3,6 +3,7 @@ problem their text denotes)."""
 import bz2, gzip, os, sys
 from fractions import Fraction as F
 sys.path.insert(0, os.path.dirname(os.path.dirname(os.path.abspath(__file__))))
+from vlib.model import render
 from vlib import run, gen_lp, model, iofmt, script as vscript
 from vlib.model import LP, Col, Row, MIN, MAX
 from vlib.rat import INF, NINF, parse
@@ -137,6 +138,24 @@ def gen_case(prop, tier, seed, stream, k):
         L = ["read_prob p0 @W@/src.%s %s" % (srcfmt.lower(), srcfmt), "dump p0"]
     else:
         L = model.script_build(m, "p0", rowwise=rnd.random() < 0.6)
+        if rnd.random() < 0.2 and m.nrows:
+            # rows re-typed after the build: a row made 'R' on a problem that may have had no range row at all (the range stays 0
+            # until set), a former range row made one-sided
+            for _ in range(rnd.randint(1, 2)):
+                i = rnd.randrange(m.nrows)
+                r = m.rows[i]
+                if r.sense == "R":
+                    op = ("change_sense", i, rnd.choice("LGE"))
+                    m.apply(op)
+                    L.append(render(op, "p0"))
+                else:
+                    op = ("change_sense", i, "R")
+                    m.apply(op)
+                    L.append(render(op, "p0"))
+                    if rnd.random() < 0.6:
+                        op = ("change_range", i, F(rnd.randint(0, 9), rnd.choice([1, 2, 3])))
+                        m.apply(op)
+                        L.append(render(op, "p0"))
     ext = rnd.choice(["", "", ".gz", ".bz2"])
     wr = "write_prob" if ext or rnd.random() < 0.7 else "write_prob_file"
     chain = []
